@@ -63,6 +63,36 @@ inductive Reachable (tf : Ty → F) : State Ty F → Prop where
   | init : Reachable tf (init Ty F)
   | step {s s' : State Ty F} (a : Act Ty) : Reachable tf s → step tf s a = some s' → Reachable tf s'
 
+/-! ### second instance: the encoder's memo `zeroNeverEnds` (nbt/encode.go)
+
+      func zeroNeverEnds(t) bool {
+        if r, ok := zeroNeverEndsMemo.Load(t); ok { return r }      -- load
+        r := zeroNeverEndsFrom(t, map[reflect.Type]bool{})           -- compute: per-call scratch state only
+        zeroNeverEndsMemo.Store(t, r)                                 -- store: overwrites
+        return r }
+
+  Same table, but the last step is `Store` (it overwrites) and the caller returns its own result.  The step
+  relation has NO step that puts a provisional marker into the table: the only write is the final answer. -/
+
+def stepOw (tf : Ty → F) (s : State Ty F) : Act Ty → Option (State Ty F)
+  | .start tid t =>
+    match s.pc tid with
+    | .idle _ => some (s.setPc tid (.load t))
+    | _ => none
+  | .run tid =>
+    match s.pc tid with
+    | .idle _ => none
+    | .load t =>
+      match s.cache t with
+      | some v => some (s.setPc tid (.idle (some (t, v))))
+      | none => some (s.setPc tid (.compute t))
+    | .compute t => some (s.setPc tid (.store t (tf t)))
+    | .store t v => some ({ s with cache := fun u => if u = t then some v else s.cache u }.setPc tid (.idle (some (t, v))))
+
+inductive ReachableOw (tf : Ty → F) : State Ty F → Prop where
+  | init : ReachableOw tf (init Ty F)
+  | step {s s' : State Ty F} (a : Act Ty) : ReachableOw tf s → stepOw tf s a = some s' → ReachableOw tf s'
+
 /-! ### the field table and the decoder's lookup -/
 
 /-- the part of `structFields` the lookup uses: the field names in index order (`list`); `nameIndex` is the map
